@@ -4,11 +4,13 @@ package shared
 
 import (
 	"bytes"
+	"context"
 	"fmt"
 	"os"
 	"path/filepath"
 	"strings"
 	"sync"
+	"time"
 
 	"github.com/benhoyt/goawk/interp"
 	"github.com/benhoyt/goawk/parser"
@@ -122,6 +124,38 @@ type Result struct {
 	ParseErr   error
 }
 
+// ExecTimeout bounds one execution (they take milliseconds): a change of the interpreter
+// that makes a program loop must end as a failed comparison, not as a hung check.
+const ExecTimeout = 10 * time.Second
+
+// execProgramTimed: interp.ExecProgram has no context; run it aside and stop waiting after ExecTimeout.
+func execProgramTimed(prog *parser.Program, cfg *interp.Config, out *bytes.Buffer) (string, error) {
+	type res struct {
+		st  int
+		err error
+		pan any
+	}
+	ch := make(chan res, 1)
+	go func() {
+		defer func() {
+			if r := recover(); r != nil {
+				ch <- res{pan: r}
+			}
+		}()
+		st, err := interp.ExecProgram(prog, cfg)
+		ch <- res{st: st, err: err}
+	}()
+	select {
+	case r := <-ch:
+		if r.pan != nil {
+			return "", fmt.Errorf("PANIC: %v", r.pan)
+		}
+		return out.String() + fmt.Sprintf("[status %d]", r.st), r.err
+	case <-time.After(ExecTimeout):
+		return "", fmt.Errorf("TIMEOUT: ExecProgram still running after %v", ExecTimeout)
+	}
+}
+
 func runGuard(f func() (string, error)) (s string) {
 	defer func() {
 		if r := recover(); r != nil {
@@ -153,8 +187,7 @@ func RunShared(w Work, dir string, seq, goroutines, rounds int) Result {
 	}
 	res.Reference = runGuard(func() (string, error) {
 		var out bytes.Buffer
-		st, err := interp.ExecProgram(fresh, config(w, dataPath, &out))
-		return out.String() + fmt.Sprintf("[status %d]", st), err
+		return execProgramTimed(fresh, config(w, dataPath, &out), &out)
 	})
 	prog, err := parser.ParseProgram([]byte(w.Src), pcfg)
 	if err != nil {
@@ -173,8 +206,7 @@ func RunShared(w Work, dir string, seq, goroutines, rounds int) Result {
 	execProgram := func() string {
 		return runGuard(func() (string, error) {
 			var out bytes.Buffer
-			st, err := interp.ExecProgram(prog, config(w, dataPath, &out))
-			return out.String() + fmt.Sprintf("[status %d]", st), err
+			return execProgramTimed(prog, config(w, dataPath, &out), &out)
 		})
 	}
 	for i := 0; i < seq; i++ {
@@ -205,7 +237,9 @@ func RunShared(w Work, dir string, seq, goroutines, rounds int) Result {
 			for r := 0; r < rounds; r++ {
 				out := runGuard(func() (string, error) {
 					var out bytes.Buffer
-					st, err := it.Execute(config(w, dataPath, &out))
+					ctx, cancel := context.WithTimeout(context.Background(), ExecTimeout)
+					defer cancel()
+					st, err := it.ExecuteContext(ctx, config(w, dataPath, &out))
 					return out.String() + fmt.Sprintf("[status %d]", st), err
 				})
 				add(&mu, fmt.Sprintf("goroutine-%d-Execute-%d", g, r), out)
